@@ -164,6 +164,10 @@ pub trait GenObj: Send {
     fn finalize(&self, o: Opts) -> Result<H, GErr>;
     /// `finalize()` (default options)
     fn finalize_default(&self) -> Result<H, GErr>;
+    /// One `GeneratorOptions::new()` object on which the setters are called in the given order
+    /// (0 = length mode (true = conservative), 1 = pure integer Q ratios, 2 = allow small,
+    /// 3 = allow half-empty, 4 = allow three-quarter-empty), then `finalize_with_options`.
+    fn finalize_setters(&self, seq: &[(u8, bool)]) -> Result<H, GErr>;
     fn processed_len(&self) -> Option<u32>;
     fn boxed_clone(&self) -> Box<dyn GenObj>;
     /// Hook: read the state back (None without hooks).
